@@ -229,7 +229,8 @@ LIFE_NEXT = {
 def life_oracle(case, impl):
     """C13/C14 stated directly on the implementation's own log (independent of the Lean model):
     legal state path, Connecting only while enabled, fail-fast results, announced delays follow
-    the doubling rule, the task terminates and handles report shutdown afterwards"""
+    the doubling rule, every announced connection is seen closed by its peer before the next
+    state is announced, the task terminates and handles report shutdown afterwards"""
     if " | " not in impl:
         return "malformed output"
     logpart, summary = impl.split(" | ", 1)
@@ -265,13 +266,58 @@ def life_oracle(case, impl):
                 return "WaitAfterDisconnect delay is not min"
         elif e == "g:Connected":
             k = 0
-    # fail fast: a request answered noconn is answered while not connected
+    # the connection: open from `g:Connected` until the peer reports `closed`, which must happen
+    # before the next state is announced (directly in front of it) and nowhere else.
+    # fail fast: noconn only without a connection; ok / transport errors only with one
     connected = False
-    for e in evs:
+    for i, e in enumerate(evs):
         if e.startswith("g:"):
+            if connected:
+                return f"{e[2:]} announced while the connection announced before was still open (no `closed`)"
             connected = e == "g:Connected"
-        if e.startswith("done:") and e.endswith(":ok.4660") and not connected:
-            return "a request succeeded while not connected"
+        elif e == "closed":
+            if not connected:
+                return "`closed` reported without an open announced connection"
+            if i + 1 >= len(evs) or not evs[i + 1].startswith("g:"):
+                return "`closed` is not directly followed by a state announcement"
+            connected = False
+        elif e.startswith("done:"):
+            res = e.split(":", 2)[2]
+            if res == "ok.4660" and not connected:
+                return "a request succeeded while not connected"
+            if res in ("io.eof", "io.reset", "io.pipe", "io.other", "bf.proto", "timeout") and not connected:
+                return f"a request failed with {res} while not connected"
+            if res == "noconn" and connected:
+                return "a request failed with no-connection while connected"
+    # exactly once: every submitted request has at most one completion, every completion a submission
+    subs = [e[2:] for e in evs if e.startswith("a:R")]
+    dones = [e.split(":")[1] for e in evs if e.startswith("done:")]
+    if len(set(subs)) != len(subs) or len(set(dones)) != len(dones) or not set(dones) <= set(subs):
+        return "a request was completed twice or without having been submitted"
+    # after `Shutdown`: nothing is announced or observed, every completion is `shutdown`; once
+    # the task has ended (first refused call / immediate completion) every call reports shutdown
+    if "g:Shutdown" in evs:
+        tail = evs[evs.index("g:Shutdown") + 1:]
+        ended = False
+        for i, e in enumerate(tail):
+            if e.startswith("g:") or e in ("idle", "closed", "early"):
+                return f"`{e}` after Shutdown"
+            if e.startswith("done:"):
+                if not e.endswith(":shutdown"):
+                    return "a request completed after Shutdown with something else than shutdown"
+                continue
+            if e.endswith(":blocked"):
+                return "a call on a handle of the ended task blocked"
+            if e.endswith(":shutdown"):
+                ended = True
+            elif ended and e != "a:X":
+                if not e.startswith("a:R"):
+                    return f"`{e}`: a call after the end of the task did not report shutdown"
+                if i + 1 >= len(tail) or tail[i + 1] != f"done:{e[2:]}:shutdown":
+                    return f"`{e}`: a request after the end of the task did not complete with shutdown at once"
+        for r in [e[2:] for e in tail if e.startswith("a:R")]:
+            if f"done:{r}:shutdown" not in evs:
+                return f"request {r} submitted after Shutdown was never completed"
     return None
 
 
@@ -339,8 +385,8 @@ PROPS = {
     ),
     "C14": dict(
         tables=[],
-        audit_modules=["RodbusModel.Audit.C14", "RodbusModel.Audit.C14Serial", "RodbusModel.Audit.C14Server"],
-        required_theorems=["Rodbus.C14Serial.drop_all_ends_task", "Rodbus.C14Server.run_eq_spec", "Rodbus.C14Server.observed_delays_conform", "Rodbus.C14Server.failures_from_start", "Rodbus.C14Server.restart_after_port_loss", "Rodbus.C14Server.restart_after_bad_frame", "Rodbus.C14Server.shutdown_from_every_state", "Rodbus.C14Server.ended_final", "Rodbus.C14.kth_delay_get", "Rodbus.C14.delay_saturates", "Rodbus.C14Serial.run_eq_spec", "Rodbus.C14Serial.announced_delays_conform", "Rodbus.C14Serial.restart_after_disable", "Rodbus.C14Serial.restart_after_port_loss", "Rodbus.C14Serial.no_open_while_disabled", "Rodbus.C14Serial.shutdown_final", "Rodbus.C14.kth_delay", "Rodbus.C14.kth_delay_created", "Rodbus.C14.kth_delay_after_reset",
+        audit_modules=["RodbusModel.Audit.C14", "RodbusModel.Audit.C14Serial", "RodbusModel.Audit.C14Server", "RodbusModel.Audit.C14Life"],
+        required_theorems=["Rodbus.C14Life.announced_delays_conform", "Rodbus.C14Serial.drop_all_ends_task", "Rodbus.C14Server.run_eq_spec", "Rodbus.C14Server.observed_delays_conform", "Rodbus.C14Server.failures_from_start", "Rodbus.C14Server.restart_after_port_loss", "Rodbus.C14Server.restart_after_bad_frame", "Rodbus.C14Server.shutdown_from_every_state", "Rodbus.C14Server.ended_final", "Rodbus.C14.kth_delay_get", "Rodbus.C14.delay_saturates", "Rodbus.C14Serial.run_eq_spec", "Rodbus.C14Serial.announced_delays_conform", "Rodbus.C14Serial.restart_after_disable", "Rodbus.C14Serial.restart_after_port_loss", "Rodbus.C14Serial.no_open_while_disabled", "Rodbus.C14Serial.shutdown_final", "Rodbus.C14.kth_delay", "Rodbus.C14.kth_delay_created", "Rodbus.C14.kth_delay_after_reset",
                            "Rodbus.C14.disconnect_is_min", "Rodbus.C14.no_overflow", "Rodbus.C14.delay_le_max"],
         suites=[dict(gen="retry", n=(4000, 300000),
                      exhaustive="11x11 lattice of special (min,max) durations incl. 0, Duration::MAX, MAX/2, MAX/2+1"),
@@ -590,8 +636,8 @@ PROPS = {
     ),
     "C13": dict(
         tables=[],
-        audit_modules=["RodbusModel.Audit.C13", "RodbusModel.Audit.C14Serial", "RodbusModel.Audit.C13Serial"],
-        required_theorems=["Rodbus.C13Serial.legal_port_path", "Rodbus.C13Serial.attempt_only_enabled", "Rodbus.C13Serial.wait_causes", "Rodbus.C13Serial.open_causes", "Rodbus.C13Serial.disabled_causes", "Rodbus.C14Serial.drop_all_ends_task", "Rodbus.C14Serial.no_open_while_disabled", "Rodbus.C14Serial.shutdown_final", "Rodbus.C13.decode_level_never_dials", "Rodbus.C13.wait_after_failed_attempt", "Rodbus.C13.announced_delays_follow_strategy_failures", "Rodbus.C13.legal_path", "Rodbus.C13.connecting_only_enabled", "Rodbus.C13.no_attempt_while_disabled",
+        audit_modules=["RodbusModel.Audit.C13", "RodbusModel.Audit.C14Serial", "RodbusModel.Audit.C13Serial", "RodbusModel.Audit.C13Conn", "RodbusModel.Audit.C14Life"],
+        required_theorems=["Rodbus.C13.after_shutdown_handles_report_shutdown", "Rodbus.C13.closed_before_next_state", "Rodbus.C13.disable_closes_connection'", "Rodbus.C13.wait_after_lost_connection_mid_session", "Rodbus.C13.legal_path_every_resolution", "Rodbus.C13Serial.legal_port_path", "Rodbus.C13Serial.attempt_only_enabled", "Rodbus.C13Serial.wait_causes", "Rodbus.C13Serial.open_causes", "Rodbus.C13Serial.disabled_causes", "Rodbus.C14Serial.drop_all_ends_task", "Rodbus.C14Serial.no_open_while_disabled", "Rodbus.C14Serial.shutdown_final", "Rodbus.C13.decode_level_never_dials", "Rodbus.C13.wait_after_failed_attempt", "Rodbus.C13.announced_delays_follow_strategy_failures", "Rodbus.C13.legal_path", "Rodbus.C13.connecting_only_enabled", "Rodbus.C13.no_attempt_while_disabled",
                            "Rodbus.C13.connected_only_after_connecting", "Rodbus.C13.fail_fast", "Rodbus.C13.shutdown_from_anywhere",
                            "Rodbus.C13.disable_leads_to_disabled", "Rodbus.C13.wait_after_refused",
                            "Rodbus.C13.wait_after_lost_connection", "Rodbus.C13.announced_delays_follow_strategy",
